@@ -458,6 +458,9 @@ def pick_reader(d, rng, u, typ, tries=40):
     v = d.subobjects_of_type(sid, typ, rng, full_slice=rng.random() < 0.05)
     if v is None or v in d.nodes or v == u: continue
     if not d.free(v): continue
+    # never overlap an existing node: keeps the data flow between nets acyclic and excludes a
+    # member sharing bits with a member of its own net (separate labelled stream, see gen_self_overlap)
+    if any(n[0] == 'sig' and n[1] == v[1] and d.share_bit(v, n) for n in d.nodes): continue
     at = d.flow_at(u, v)
     if at is None: continue
     return v, at
@@ -467,6 +470,8 @@ def grow_net(d, rng, writer, kind, nid, max_readers=4):
   members = [writer]
   typ = d.otype(writer)
   added = 0
+  was_node = writer in d.nodes
+  d.nodes.add(writer)        # readers must not overlap the writer either
   for _ in range(rng.randint(1, max_readers)):
     u = rng.choice(members)
     r = pick_reader(d, rng, u, typ)
@@ -475,7 +480,9 @@ def grow_net(d, rng, writer, kind, nid, max_readers=4):
     d.add_conn(u, v, at)
     d.drive(v, ('net', nid)); d.marked.add(v)
     members.append(v); added += 1
-  if added == 0: return None
+  if added == 0:
+    if not was_node: d.nodes.discard(writer)
+    return None
   info = dict(writer=writer, members=members, kind=kind, id=nid)
   d.netinfo.append(info)
   if kind in ('topin', 'const'):
@@ -566,6 +573,24 @@ def gen_legal(rng, nnets=None, levels=None, extra_blocks=True, d1=False):
           if x not in d.nodes and d.free(x, same=('blk', blk['id'])) and rng.random() < 0.5:
             d.add_write(blk, x, rng); break
   if d1: add_d1_shape(d, rng)
+  return d
+
+def gen_self_overlap(rng):
+  """a net whose reader shares bits with its own writer: x[a:b] drives x[c:d] of the same signal"""
+  d = Design(next(_uid))
+  gen_hierarchy(rng, d, levels=rng.choice([1, 2]))
+  comp = rng.randrange(len(d.comps))
+  W = rng.choice([8, 12])
+  sid = d.add_sig(comp, f'x{len(d.sigs)}', 'wire', ('b', W))
+  w = rng.randint(2, 4)
+  lo = rng.randint(w, W - w - 1) if W - w - 1 >= w else w
+  writer = ('sig', sid, (), (lo, lo + w))
+  # the writer becomes a source because its top bit is driven by a block through a sibling slice
+  blk = d.new_blk(comp, False)
+  d.add_write(blk, ('sig', sid, (), (lo + w - 1, min(W, lo + w + 1))), rng, rhs=('k', 1))
+  reader = ('sig', sid, (), (lo - 1, lo + w - 1)) if rng.random() < 0.5 else ('sig', sid, (), (lo - w + 1, lo + 1))
+  d.add_conn(writer, reader, comp)
+  d.netinfo.append(dict(writer=writer, members=[writer, reader], kind='derived', id=('n', 0)))
   return d
 
 def add_d1_shape(d, rng):
@@ -1092,3 +1117,267 @@ def inject(d, rng, kind):
   else: cls, typ = r, None
   d.labels.append((kind, cls, typ))
   return cls, typ
+
+# ---------------------------------------------------------------------------------------------
+# JSON form (cases in evidence / replays)
+# ---------------------------------------------------------------------------------------------
+def _o2j(o):
+  return ['const', o[1]] if o[0] == 'const' else ['sig', o[1], list(o[2]), list(o[3]) if o[3] is not None else None]
+
+def _j2o(j):
+  return ('const', j[1]) if j[0] == 'const' else ('sig', j[1], tuple(j[2]), tuple(j[3]) if j[3] is not None else None)
+
+def design_to_json(d):
+  return dict(
+    comps=[[c['name'], c['parent']] for c in d.comps],
+    sigs=[[s['comp'], s['name'], s['kind'], list(s['type'])] for s in d.sigs],
+    consts=[[list(c['type']), c['value'], c['at']] for c in d.consts],
+    conns=[[_o2j(c['a']), _o2j(c['b']), c['at'], c['auto']] for c in d.conns],
+    blks=[[b['comp'], b['ff'], [[_o2j(t), op, [rhs[0]] + ([rhs[1]] if rhs[0] == 'k' else [_o2j(rhs[1])] if rhs[0] == 'r' else [])]
+                                for (t, op, rhs) in b['stmts']], [_o2j(r) for r in b.get('extra_reads', [])]] for b in d.blks],
+    labels=[list(l) for l in d.labels])
+
+def design_from_json(j):
+  d = Design(next(_uid))
+  for name, parent in j['comps']:
+    idx = len(d.comps)
+    path = '' if parent is None else (name if parent == 0 else d.comps[parent]['path'] + '.' + name)
+    c = dict(idx=idx, name=name, parent=parent, children=[], path=path)
+    d.comps.append(c)
+    if parent is not None: d.comps[parent]['children'].append(idx)
+  for comp, name, kind, typ in j['sigs']:
+    sid = d.add_sig(comp, name, kind, tuple(typ))
+    if name in ('clk', 'reset'): d.comps[comp][name] = sid
+  for typ, value, at in j['consts']:
+    d.consts.append(dict(cid=len(d.consts), type=tuple(typ), value=value, at=at))
+  for a, b, at, auto in j['conns']:
+    d.conns.append(dict(a=_j2o(a), b=_j2o(b), at=at, auto=auto))
+    d.nodes.add(_j2o(a)); d.nodes.add(_j2o(b))
+  for comp, ff, stmts, extra in j['blks']:
+    b = d.new_blk(comp, ff)
+    for t, op, rhs in stmts:
+      r = ('k', rhs[1]) if rhs[0] == 'k' else ('r', _j2o(rhs[1])) if rhs[0] == 'r' else ('inc',)
+      b['stmts'].append((_j2o(t), op, r))
+      if r[0] == 'r': b['reads'].append(r[1])
+      if r[0] == 'inc': b['reads'].append(_j2o(t))
+    if extra: b['extra_reads'] = [_j2o(r) for r in extra]
+  d.labels = [tuple(l) for l in j.get('labels', [])]
+  return d
+
+def variant_to_json(var):
+  return dict(per={str(k): [list(s) for s in v] for k, v in var['per'].items()},
+              flips=sorted(k for k, v in var['flips'].items() if v), styles=sorted(k for k, v in var['styles'].items() if v))
+
+def variant_from_json(j):
+  return dict(per={int(k): [tuple(s) for s in v] for k, v in j['per'].items()},
+              flips={k: True for k in j['flips']}, styles={k: True for k in j['styles']})
+
+# ---------------------------------------------------------------------------------------------
+# simulation: every member of a net carries the writer's value
+# ---------------------------------------------------------------------------------------------
+def value_of(top, d, o, mod):
+  """packed integer value of object o in the simulated design (constants: their own value)"""
+  if o[0] == 'const': return d.consts[o[1]]['value']
+  sg = d.sigs[o[1]]
+  x = top
+  p = d.comps[sg['comp']]['path']
+  for nm in (p.split('.') if p else []): x = getattr(x, nm)
+  x = getattr(x, sg['name'])
+  t = sg['type']
+  for k in o[2]:
+    x = getattr(x, STRUCTS[t[1]][k][0]); t = STRUCTS[t[1]][k][1]
+  if o[3] is not None: x = x[o[3][0]:o[3][1]]
+  return int(x.to_bits()) if hasattr(x, 'to_bits') else int(x)
+
+def set_inputs(top, d, mod, rng):
+  vals = {}
+  for sg in d.sigs:
+    if sg['comp'] == 0 and sg['kind'] == 'in' and sg['name'] not in ('clk', 'reset'):
+      v = rng.randrange(1 << twidth(sg['type']))
+      vals[sg['name']] = v
+      port = getattr(top, sg['name'])
+      port @= eval(tconst_src(sg['type'], v) if sg['type'][0] == 's' else f'Bits{sg["type"][1]}({v})', mod.__dict__)
+  return vals
+
+def simulate_and_check(top, d, mod, rng, nets, nvec=3):
+  """nets: list of (writer obj, [member objs]). Returns list of failures (empty = ok)."""
+  from pymtl3.passes.PassGroups import DefaultPassGroup
+  top.apply(DefaultPassGroup())
+  top.sim_reset()
+  fails = []
+  for k in range(nvec):
+    ins = set_inputs(top, d, mod, rng)
+    top.sim_eval_combinational()
+    for phase in ('comb', 'tick'):
+      for (w, members) in nets:
+        wv = value_of(top, d, w, mod)
+        for m in members:
+          mv = value_of(top, d, m, mod)
+          if mv != wv:
+            fails.append(dict(vector=k, phase=phase, inputs=ins, writer=d.orepr(w), writer_value=wv, member=d.orepr(m), member_value=mv))
+      if phase == 'comb': top.sim_tick()
+  return fails
+
+def witness_self_overlap():
+  """the committed witness of the known finding: in_ drives x[6:8]; x[4:7] drives x[2:5]"""
+  d = Design(next(_uid))
+  d.add_comp('top', None)
+  i = d.add_sig(0, 'in_', 'in', ('b', 2))
+  x = d.add_sig(0, 'x', 'wire', ('b', 8))
+  d.hook_clk()
+  d.add_conn(d.whole(i), ('sig', x, (), (6, 8)), 0)
+  d.add_conn(('sig', x, (), (4, 7)), ('sig', x, (), (2, 5)), 0)
+  d.netinfo.append(dict(writer=d.whole(i), members=[d.whole(i), ('sig', x, (), (6, 8))], kind='topin', id=('n', 0)))
+  d.netinfo.append(dict(writer=('sig', x, (), (4, 7)), members=[('sig', x, (), (4, 7)), ('sig', x, (), (2, 5))], kind='derived', id=('n', 1)))
+  return d
+
+def all_variant_orders(d, rng, cap):
+  """every combination of per-component statement orders (flips random), or None if more than cap"""
+  per_lists = {}
+  total = 1
+  for c in d.comps:
+    sts = [('conn', i) for i, cn in enumerate(d.conns) if cn['at'] == c['idx'] and not cn['auto']]
+    sts += [('blk', b['id']) for b in d.blks if b['comp'] == c['idx']]
+    per_lists[c['idx']] = sts
+    f = 1
+    for k in range(2, len(sts) + 1): f *= k
+    total *= f
+    if total > cap: return None
+  out = []
+  keys = sorted(per_lists)
+  for combo in itertools.product(*[list(itertools.permutations(per_lists[k])) for k in keys]):
+    flips = {i: rng.random() < 0.5 for i in range(len(d.conns)) if not d.conns[i]['auto']}
+    styles = {i: rng.random() < 0.3 for i in range(len(d.conns))}
+    out.append(dict(per={k: list(p) for k, p in zip(keys, combo)}, flips=flips, styles=styles))
+  return out
+
+def describe(d):
+  """small structural summary used for histograms and the non-triviality rule"""
+  objs = d.all_objects()
+  return dict(comps=len(d.comps), levels=1 + max(len(d.ancestors_or_self(c['idx'])) - 1 for c in d.comps),
+              user_conns=sum(1 for c in d.conns if not c['auto']), blks=len(d.blks),
+              sub_objects=sum(1 for o in objs if o[0] == 'sig' and (o[2] or o[3] is not None)),
+              consts=len(d.consts))
+
+# ---------------------------------------------------------------------------------------------
+# exhaustive small tables (C09)
+# ---------------------------------------------------------------------------------------------
+def fixed_hierarchy():
+  """top(0) -> a(1), b(2); a -> g(3); only clk/reset declared"""
+  d = Design(next(_uid))
+  d.add_comp('top', None)
+  a = d.add_comp('a', 0); d.add_comp('b', 0); d.add_comp('g', a)
+  d.hook_clk()
+  return d
+
+def _make_source(d, rng, u):
+  """drive the fresh whole signal u by the block that may legally write it (top-level inputs are sources already)"""
+  sg = d.sigs[u[1]]
+  if sg['kind'] == 'in':
+    if sg['comp'] == 0: return
+    _blk_write(d, rng, d.parent(sg['comp']), u)
+  else:
+    _blk_write(d, rng, sg['comp'], u)
+
+def table_port_nets(rng):
+  """every (host relation, kind of the driving side, kind of the driven side), connected where the two meet"""
+  rels = {'same': (1, 1), 'same-top': (0, 0), 'up': (1, 0), 'up2': (3, 1), 'down': (0, 1), 'down2': (1, 3), 'sibling': (1, 2),
+          'far-down': (0, 3), 'far-up': (3, 0), 'uncle': (3, 2), 'nephew': (2, 3)}
+  out = []
+  for rel, (hu, hv) in rels.items():
+    for ku in ('in', 'out', 'wire'):
+      for kv in ('in', 'out', 'wire'):
+        ats = [_lca_fixed(hu, hv)]
+        if hu == hv and hu != 0: ats.append(0 if hu in (1, 2) else 1)     # also fulfilled at the parent (loop-back rule)
+        for at in ats:
+          d = fixed_hierarchy()
+          typ = rng.choice([('b', 4), ('b', 8), ('s', 'PA')])
+          u = d.whole(d.add_sig(hu, 'u', ku, typ)); v = d.whole(d.add_sig(hv, 'v', kv, typ))
+          _make_source(d, rng, u)
+          d.add_conn(u, v, at)
+          d.labels.append((f'port-net:{rel}:{ku}->{kv}@{at}', None, None))
+          out.append(d)
+  return out
+
+def _lca_fixed(x, y):
+  par = {0: None, 1: 0, 2: 0, 3: 1}
+  def anc(c):
+    r = []
+    while c is not None: r.append(c); c = par[c]
+    return r
+  ax = anc(x)
+  for c in anc(y):
+    if c in ax: return c
+  return 0
+
+def table_port_upblk(rng):
+  out = []
+  for bh, sh in ((0, 0), (0, 1), (0, 3), (1, 1), (1, 3)):
+    for kind in ('in', 'out', 'wire'):
+      for rw in ('read', 'write'):
+        d = fixed_hierarchy()
+        typ = rng.choice([('b', 4), ('b', 8), ('s', 'PA')])
+        x = d.random_object(d.add_sig(sh, 'x', kind, typ), rng)
+        if rw == 'write':
+          _blk_write(d, rng, bh, x)
+        else:
+          b = _blk_write(d, rng, bh, d.whole(d.add_sig(bh, 'y', 'wire', ('b', 4))))
+          b['extra_reads'] = [x]
+        d.labels.append((f'port-upblk:{rw}:{kind}:blk@{bh}:sig@{sh}', None, None))
+        out.append(d)
+  return out
+
+def table_ops(rng):
+  out = []
+  for ff in (False, True):
+    for op in ('assign', 'at', 'ff'):
+      for shape in ('whole', 'slice', 'field'):
+        d = fixed_hierarchy()
+        comp = rng.choice([0, 1, 3])
+        typ = {'whole': rng.choice([('b', 8), ('s', 'PA')]), 'slice': ('b', 8), 'field': ('s', 'PB')}[shape]
+        sid = d.add_sig(comp, 'x', rng.choice(['wire', 'out']), typ)
+        o = d.whole(sid)
+        if shape == 'slice': o = ('sig', sid, (), (2, 6))
+        if shape == 'field': o = ('sig', sid, (rng.randrange(3),), None)
+        _blk_write(d, rng, comp, o, ff=ff, op=op)
+        d.labels.append((f'op:{"ff" if ff else "comb"}:{op}:{shape}', None, None))
+        out.append(d)
+  return out
+
+def table_write_pairs(rng, typ=('b', 4)):
+  """every ordered pair of objects of one signal, written by two blocks / by one block / one by a block and one by a net"""
+  d0 = fixed_hierarchy()
+  sid0 = d0.add_sig(0, 'x', 'wire', typ)
+  objs = []
+  def rec(t, fields):
+    objs.append(('sig', sid0, fields, None))
+    if t[0] == 's':
+      for k, (_, ft) in enumerate(STRUCTS[t[1]]): rec(ft, fields + (k,))
+    elif typ[0] == 'b':
+      for lo in range(t[1]):
+        for hi in range(lo + 1, t[1] + 1): objs.append(('sig', sid0, fields, (lo, hi)))
+    else:
+      if t[1] >= 4: objs.append(('sig', sid0, fields, (1, 3))); objs.append(('sig', sid0, fields, (2, t[1])))
+  rec(typ, ())
+  out = []
+  for o1 in objs:
+    for o2 in objs:
+      for mode in ('two-blocks', 'one-block', 'block-and-net'):
+        if mode == 'block-and-net' and o1 == o2: continue
+        d = fixed_hierarchy()
+        comp = rng.choice([0, 1])
+        sid = d.add_sig(comp, 'x', 'wire', typ)
+        a = ('sig', sid, o1[2], o1[3]); b = ('sig', sid, o2[2], o2[3])
+        if mode == 'two-blocks':
+          _blk_write(d, rng, comp, a); _blk_write(d, rng, comp, b)
+        elif mode == 'one-block':
+          blk = _blk_write(d, rng, comp, a)
+          d.add_write(blk, b, rng, rhs=('k', rng.randrange(1 << twidth(d.otype(b)))))
+        else:
+          _blk_write(d, rng, comp, a)
+          src = d.whole(d.add_sig(comp, 'y', 'wire', d.otype(b)))
+          _blk_write(d, rng, comp, src)
+          d.add_conn(src, b, comp)
+        d.labels.append((f'write-pair:{mode}:{d.suffix(a) or "whole"}:{d.suffix(b) or "whole"}', None, None))
+        out.append(d)
+  return out
